@@ -136,7 +136,7 @@ static int cif_has_disallowed_chars(const UChar *str) {
     for (c = str; *c != 0; c++) {
         if (*c < MIN_HIGH_SURROGATE || *c > MAX_LOW_SURROGATE) {
             if (((*c < 0x20) && (*c != 0x9) && (*c != 0xa) && (*c != 0xd)) 
-                    || (*c == 0x7f)
+                    || ((*c >= 0x7f) && (*c < 0xa0))
                     || ((*c > 0xfdcf) && (*c < 0xfdf0))
                     || (*c > 0xfffd)) {
                 /* a disallowed BMP character */
